@@ -92,6 +92,9 @@ enum Held {
     DerivedKey,
     /// the legitimate object of the *presented* foreign key
     PresentedKey,
+    /// the store is full (capacity 2) of two unrelated chunks that are farther from the node than every key of the case:
+    /// a presented key is nearer than the farthest held record, so anything that runs the capacity step evicts
+    FullOfOthers,
 }
 
 /// The honest record living under the foreign key a case presents.
@@ -174,7 +177,33 @@ fn run_case(run: &Run, stub: &Arc<EvmStub>, kind: Kind, path: Path, choice: KeyC
         KeyChoice::Extended33 => RecordKey::new(&[up.key.as_ref(), &[0u8][..]].concat()),
         KeyChoice::Empty => RecordKey::new(&Vec::<u8>::new()),
     };
-    let watch = vec![up.key.clone(), key.clone(), other_same_kind_key(kind), other_kind_key(kind)];
+    let mut watch = vec![up.key.clone(), key.clone(), other_same_kind_key(kind), other_kind_key(kind)];
+    if held_what == Held::FullOfOthers {
+        let me = ant_protocol::NetworkAddress::from_peer(rig.d.peer_id());
+        let far_edge = watch.iter().map(|k| me.distance(&ant_protocol::NetworkAddress::from_record_key(k))).max().expect("watch keys");
+        let mut fillers = vec![];
+        for i in 0..=255u8 {
+            let c = rec::chunk(&[b'c', b'0', b'4', b'f', i]);
+            if me.distance(&ant_protocol::NetworkAddress::from_chunk_address(*c.address())) > far_edge {
+                fillers.push(c);
+                if fillers.len() == 2 {
+                    break;
+                }
+            }
+        }
+        if fillers.len() < 2 {
+            run.machinery_error("C04: no two chunks farther than every key of the case among 256 candidates");
+        }
+        for c in &fillers {
+            let (n, r) = (rig.node.clone(), rec::chunk_record(c));
+            let _ = rig.run("filler", async move { n.store_replicated_in_record(r).await });
+            watch.push(rec::chunk_key(c));
+        }
+        rig.set_max_records(2);
+        if rig.listed().len() != 2 {
+            run.machinery_error("C04: the full-store set-up does not hold its two filler chunks");
+        }
+    }
     let before = snapshot(&mut rig, &watch);
     let desc = json!({"kind": format!("{kind:?}"), "path": format!("{path:?}"), "key": format!("{choice:?}"), "already_held": format!("{held_what:?}")});
     run.case(desc.to_string().as_bytes(), choice != KeyChoice::Derived);
@@ -344,7 +373,7 @@ pub fn main(tier: Option<&str>) {
     let run = Run::new("C04", "model_checking", tier);
     run.rule(
         "kind 4 x path {paid put, unpaid update, replication, kad inbound} x key {derived, another object of the same kind, an object of \
-         another kind, random, the derived key minus its last byte / plus one byte, the empty key} x {empty store, derived key already held, the presented foreign key already held by its legitimate record}: each on a fresh real Node + SwarmDriver under the FIFO \
+         another kind, random, the derived key minus its last byte / plus one byte, the empty key} x {empty store, derived key already held, the presented foreign key already held by its legitimate record, a store full (capacity 2) of two unrelated chunks farther away than every key of the case}: each on a fresh real Node + SwarmDriver under the FIFO \
          schedule, the presented key paid for by an otherwise valid proof; after each case every record the store lists is re-derived \
          from its bytes. Plus 8 malformed / oversized inbound records. Non-trivial = the key is not the derived one.",
     );
@@ -353,7 +382,7 @@ pub fn main(tier: Option<&str>) {
     for kind in KINDS {
         for path in [Path::PaidPut, Path::UnpaidUpdate, Path::Replication, Path::KadInbound] {
             for choice in [KeyChoice::Derived, KeyChoice::SameKindOther, KeyChoice::OtherKind, KeyChoice::Random, KeyChoice::Prefix31, KeyChoice::Extended33, KeyChoice::Empty] {
-                for held in [Held::Nothing, Held::DerivedKey, Held::PresentedKey] {
+                for held in [Held::Nothing, Held::DerivedKey, Held::PresentedKey, Held::FullOfOthers] {
                     if held == Held::PresentedKey && legit_record_under(kind, choice).is_none() {
                         continue;
                     }
